@@ -138,6 +138,18 @@ class ListEval(object):
         def walk(stmts, cond, local):
             """local: list name -> predicate delta for THIS element (True appended / False removed)"""
             for i, s in enumerate(stmts):
+                if isinstance(s, ast.Try) and len(s.body) == 1 and len(s.handlers) == 1 and not s.finalbody and \
+                        s.handlers[0].type is not None and unparse(s.handlers[0].type) == 'ValueError' and \
+                        isinstance(s.body[0], ast.Expr) and isinstance(s.body[0].value, ast.Call) and \
+                        isinstance(s.body[0].value.func, ast.Attribute) and s.body[0].value.func.attr in ('remove', 'index') and \
+                        isinstance(s.body[0].value.func.value, ast.Name) and len(s.body[0].value.args) == 1 and \
+                        isinstance(s.body[0].value.args[0], ast.Name) and s.body[0].value.args[0].id == x:
+                    # L.remove(x) raises ValueError exactly when x is not in L: the try is the membership test
+                    lst_ = s.body[0].value.func.value
+                    test_ = ast.Compare(left=ast.Name(id=x, ctx=ast.Load()), ops=[ast.In()], comparators=[ast.Name(id=lst_.id, ctx=ast.Load())])
+                    s = ast.If(test=test_, body=list(s.body) + list(s.orelse), orelse=list(s.handlers[0].body))
+                    ast.copy_location(s, stmts[i])
+                    ast.fix_missing_locations(s)
                 if isinstance(s, ast.If):
                     p = self.pred_with_local(s.test, x, env, local)
                     t_paths = walk(s.body + stmts[i + 1:], cond & p, dict(local))
